@@ -99,6 +99,12 @@ FIXED = [
     line(16, req=100000, resp=100000, sop="vanish", vanish_us=2500),
     line(17, req=1000, resp=1 << 20, sop="vanish", vanish_us=4000, cop="concurrent"),
     line(18, req=1000, resp=1000, sop="vanish", vanish_us=300),
+    # the server finishes a short response (final offset known to the receiver) while earlier packets of it were
+    # lost, then vanishes before it can retransmit: the receiver sits in "size known" with a gap and only its idle
+    # timer can end the stream
+    line(32, req=1000, resp=20000, sop="vanish", vanish_us=6000, drop=300, faults_ms=1000),
+    line(33, req=1000, resp=20000, sop="vanish", vanish_us=9000, drop=500, reorder=200, faults_ms=1000),
+    line(34, req=4, resp=60000, sop="vanish", vanish_us=12000, drop=200, faults_ms=1000, mtu=9000),
     # the repo's idle_timeout::server_no_response: the request is delivered and acknowledged, no answer ever comes;
     # only the client's receiver idle timer (armed when the stream is created) can end the stream
     line(28, req=4, resp=1000, sop="stall"),
